@@ -10,7 +10,7 @@ let fail_parts (s : string) : M.kind * M.msg =
   match S.split_on_char ':' s with
   | [k; n] ->
       let kind = (match k with
-        | "I" -> M.Interrupted | "E" -> M.UnexpectedEof | "15" -> M.InvalidData | "16" -> M.WriteZero
+        | "I" -> M.Interrupted | "E" -> M.UnexpectedEof | "14" -> M.Other | "15" -> M.InvalidData | "16" -> M.WriteZero
         | _ -> M.KUser (n_of_string k)) in
       (kind, if n = "-" then M.MSimple else M.MUser (n_of_string n))
   | _ -> failwith "fail entry"
